@@ -4059,6 +4059,10 @@ class PyCdlib:
             # Create the Reserve Volume Descriptor Sequence.
             reserve_pvd = udfmod.UDFPrimaryVolumeDescriptor()
             reserve_pvd.new()
+            # The Reserve Volume Descriptor Sequence is a copy of the Main one
+            # (ECMA-167 3/8.4.2.2), so it carries the same identifier and date.
+            reserve_pvd.vol_set_ident = pvd.vol_set_ident
+            reserve_pvd.recording_date = pvd.recording_date
             self.udf_reserve_descs.pvds.append(reserve_pvd)
 
             reserve_impl_use = udfmod.UDFImplementationUseVolumeDescriptor()
